@@ -373,6 +373,70 @@ static void target(const uint8_t *in, size_t len)
 	}
 	if (len >= 129) { SM9_Z256_TWIST_POINT T; sm9_z256_twist_point_from_uncompressed_octets(&T, in); }
 }
+#elif VF_TARGET == 11 /* ---- records only a peer that holds the traffic keys can produce: arbitrary inner plaintext / padding under a valid tag ---- */
+static void die(const char *why) { fprintf(stdout, "VF-ORACLE %s\n", why); fflush(stdout); abort(); }
+static void target(const uint8_t *in, size_t len)
+{
+	static const uint8_t key[16] = { 9 }, iv[12] = { 7, 7, 7 };
+	uint8_t seq[8] = { 0 };
+	if (len < 1 || len > 1 + 16384 + 256 + 48) return;
+	int sel = in[0]; in++; len--;
+	seq[7] = (uint8_t)(sel >> 2);
+	if (!(sel & 1)) {
+		/* TLS 1.3: the input is the whole TLSInnerPlaintext (content || type || zeros), also empty or all zeros */
+		BLOCK_CIPHER_KEY bk; SM4_KEY sk; uint8_t nonce[12] = { 0 }, aad[5]; size_t clen = len + 16, i;
+		block_cipher_set_encrypt_key(&bk, BLOCK_CIPHER_sm4(), key); sm4_set_encrypt_key(&sk, key);
+		memcpy(nonce + 4, seq, 8); for (i = 0; i < 12; i++) nonce[i] ^= iv[i];
+		aad[0] = 23; aad[1] = 3; aad[2] = 3; aad[3] = (uint8_t)(clen >> 8); aad[4] = (uint8_t)clen;
+		uint8_t *rec = malloc(5 + clen); memcpy(rec, aad, 5);
+		if (sm4_gcm_encrypt(&sk, nonce, 12, aad, 5, in, len, rec + 5, 16, rec + 5 + len) != 1) { free(rec); return; }
+		{	/* function level, output of exactly the plaintext size */
+			uint8_t *out = malloc(len ? len : 1); int type = -1; size_t ol = 0;
+			int r = tls13_gcm_decrypt(&bk, iv, seq, rec + 5, clen, &type, out, &ol);
+			if (r == 1 && ol >= len) die("tls13_gcm_decrypt: accepted record reports at least as many content bytes as the inner plaintext has");
+			if (r == 1 && (ol >= len || in[ol] != type)) die("tls13_gcm_decrypt: content type is not the last non-zero octet");
+			free(out);
+		}
+		{	/* record level */
+			uint8_t *out = malloc(5 + len + 1); size_t ol = 0;
+			int r = tls13_record_decrypt(&bk, iv, seq, rec, 5 + clen, out, &ol);
+			if (r == 1 && ol > 5 + len) die("tls13_record_decrypt: record longer than its ciphertext allows");
+			free(out);
+		}
+		free(rec);
+	} else {
+		/* TLCP / TLS 1.2 CBC-HMAC: content || MAC || padding where the padding octets come from the input (sel bit 1: valid MAC,
+		 * else the input is the raw plaintext of the CBC blocks) */
+		SM3_HMAC_CTX hm; SM4_KEY ek, dk; uint8_t civ[16] = { 3 }, hdr[5] = { 23, 1, 1, 0, 0 };
+		sm3_hmac_init(&hm, key, 16); sm4_set_encrypt_key(&ek, key); sm4_set_decrypt_key(&dk, key);
+		uint8_t *pt; size_t ptlen;
+		if (sel & 2) {
+			size_t padn = len ? (size_t)in[len - 1] % 64 : 0, content = len > padn ? len - padn : 0, i;
+			if (content > 16384) content = 16384;
+			ptlen = content + 32 + padn; ptlen += (16 - ptlen % 16) % 16;
+			pt = malloc(ptlen); memcpy(pt, in, content);
+			{ SM3_HMAC_CTX c = hm; uint8_t h[5] = { 23, 1, 1, (uint8_t)(content >> 8), (uint8_t)content };
+			  sm3_hmac_update(&c, seq, 8); sm3_hmac_update(&c, h, 5); sm3_hmac_update(&c, pt, content); sm3_hmac_finish(&c, pt + content); }
+			for (i = content + 32; i < ptlen; i++) pt[i] = (i - content - 32 < padn && len) ? in[content + (i - content - 32)] : (uint8_t)(ptlen - content - 33);
+		} else {
+			ptlen = len - len % 16; pt = malloc(ptlen ? ptlen : 1); memcpy(pt, in, ptlen);
+		}
+		if (ptlen >= 16) {
+			uint8_t *ct = malloc(16 + ptlen); uint8_t v[16]; memcpy(ct, civ, 16); memcpy(v, civ, 16);
+			sm4_cbc_encrypt_blocks(&ek, v, pt, ptlen / 16, ct + 16);
+			hdr[3] = (uint8_t)((16 + ptlen) >> 8); hdr[4] = (uint8_t)(16 + ptlen);
+			uint8_t *out = malloc(ptlen); size_t ol = 0;
+			int r = tls_cbc_decrypt(&hm, &dk, seq, hdr, ct, 16 + ptlen, out, &ol);
+			if (r == 1 && ol + 32 + 1 > ptlen) die("tls_cbc_decrypt: accepted record reports more content than its blocks hold");
+			free(out);
+			uint8_t *rec = malloc(5 + 16 + ptlen), *out2 = malloc(5 + ptlen); memcpy(rec, hdr, 5); memcpy(rec + 5, ct, 16 + ptlen);
+			r = tls_record_decrypt(&hm, &dk, seq, rec, 5 + 16 + ptlen, out2, &ol);
+			if (r == 1 && ol + 32 + 1 > 5 + ptlen) die("tls_record_decrypt: accepted record reports more content than its blocks hold");
+			free(rec); free(out2); free(ct);
+		}
+		free(pt);
+	}
+}
 #endif
 
 int LLVMFuzzerTestOneInput(const uint8_t *data, size_t size)
